@@ -473,7 +473,7 @@ func parseFragment(parser *Parser) (interface{}, error) {
 		}), nil
 	}
 	var typeCondition *ast.Named
-	if parser.Token.Value == "on" {
+	if peek(parser, lexer.NAME) && parser.Token.Value == "on" {
 		if err := advance(parser); err != nil {
 			return nil, err
 		}
